@@ -79,7 +79,7 @@ void prop_qr_factorize(Tape &t, Ctx &c) {
     const bool cx = QT<T>::cx;
     int m = static_cast<int>(t.u(1, 12)), n = static_cast<int>(t.u(1, 12));
     int fam = static_cast<int>(t.u(0, 7));
-    Layout Lo = gen_layout(t, m, n, 10); // padded layouts hit a listed finding in factorize(): keep them rare
+    Layout Lo = gen_layout(t, m, n);
     std::string fname; ZMat A0 = gen_dense(t, m, n, cx, fam, fname);
     const int k = std::min(m, n);
     c.desc << "QR<" << QT<T>::name() << ">::factorize " << m << "x" << n << " " << (Lo.row_major ? "row_major" : "col_major") << " pad=" << Lo.pad << " family=" << fname;
@@ -91,9 +91,9 @@ void prop_qr_factorize(Tape &t, Ctx &c) {
     std::vector<T> buf(Lo.size, QT<T>::make(sentinel, cx ? -sentinel : 0));
     for (int i = 0; i < m; ++i) for (int j = 0; j < n; ++j) buf[i * Lo.rs + j * Lo.cs] = QT<T>::make(A0(i, j).real(), A0(i, j).imag());
     ad::QR<T> qr;
-    // known finding: factorize() sizes its Q buffer m*n but indexes it with the strides of A -> heap overflow for any
-    // leading dimension larger than the matrix extent (only the contiguous row_major/col_major overload is used inside amgcl)
-    if (Lo.pad) { c.label("strided-factorize"); if (c.known("F-qr-factorize-strides")) return; }
+    // regression region (fixed 766a542): factorize() sized its Q buffer m*n but indexed it with the strides of A -> heap overflow for
+    // any leading dimension larger than the matrix extent
+    if (Lo.pad) c.label("strided-factorize");
     if (Lo.pad) qr.factorize(m, n, Lo.rs, Lo.cs, buf.data());
     else qr.factorize(m, n, buf.data(), Lo.row_major ? ad::row_major : ad::col_major);
     // padding untouched
@@ -145,9 +145,8 @@ void prop_qr_solve(Tape &t, Ctx &c) {
     std::vector<T> f(m), x(n, QT<T>::make(std::numeric_limits<double>::quiet_NaN(), 0));
     for (int i = 0; i < m; ++i) f[i] = QT<T>::make(b0(i, 0).real(), b0(i, 0).imag());
     ad::QR<T> qr;
-    // known finding: the wide branch conjugates A[0 .. rows*cols) as if the storage were contiguous; with a padded leading
-    // dimension and complex values some entries stay unconjugated -> wrong minimum-norm solution (real values: no effect)
-    if (Lo.pad && m < n && cx) { c.label("strided-wide-complex-solve"); if (c.known("F-qr-solve-wide-complex-strides")) return; }
+    // regression region (fixed 6bb06be): the wide branch conjugated A[0 .. rows*cols) as if the storage were contiguous
+    if (Lo.pad && m < n && cx) c.label("strided-wide-complex-solve");
     if (Lo.pad) qr.solve(m, n, Lo.rs, Lo.cs, buf.data(), f.data(), x.data());
     else qr.solve(m, n, buf.data(), f.data(), x.data(), Lo.row_major ? ad::row_major : ad::col_major);
     for (int i = 0; i < m; ++i) VF_REQUIRE(QT<T>::z(f[i]) == b0(i, 0), "QR::solve modified the right-hand side");
@@ -293,10 +292,10 @@ void prop_static_matrix(Tape &t, Ctx &c) {
 static std::vector<Prop> props() {
     return {
         Prop("qr_factorize_double", prop_qr_factorize<double>, 4000, 40000, 100, 8, {1}, 2, 4),
-        Prop("qr_factorize_complex", prop_qr_factorize<cplx>, 2500, 25000, 100, 12, {1}, 1, 2),
-        Prop("qr_solve_double", prop_qr_solve<double>, 2500, 25000, 100, 8, {1}, 2, 4),
-        Prop("qr_solve_complex", prop_qr_solve<cplx>, 1500, 15000, 100, 12, {1}, 1, 2),
-        Prop("qr_block", prop_qr_block, 1500, 15000, 100, 8, {1}, 1, 2),
+        Prop("qr_factorize_complex", prop_qr_factorize<cplx>, 4000, 40000, 100, 12, {1}, 1, 2),
+        Prop("qr_solve_double", prop_qr_solve<double>, 4000, 40000, 100, 8, {1}, 2, 4),
+        Prop("qr_solve_complex", prop_qr_solve<cplx>, 3000, 30000, 100, 12, {1}, 1, 2),
+        Prop("qr_block", prop_qr_block, 3000, 30000, 100, 8, {1}, 1, 2),
         Prop("sm_double_2", prop_static_matrix<double, 2, 2, 2>, 1500, 15000, 100, 2, {1}, 1, 1),
         Prop("sm_double_3", prop_static_matrix<double, 3, 3, 3>, 1500, 15000, 100, 2, {1}, 1, 1),
         Prop("sm_double_4", prop_static_matrix<double, 4, 4, 4>, 1000, 10000, 100, 3, {1}, 1, 1),
@@ -315,14 +314,15 @@ static std::vector<Enum> enums() {
         Enum e;
         e.name = cxv ? "qr_all_shapes_complex" : "qr_all_shapes_double"; e.prop = cxv ? "qr_factorize_complex" : "qr_factorize_double";
         e.scope_quick = "every shape m x n with 1 <= m,n <= 12, x 8 matrix families (uniform, integers, rank-deficient, zero columns, scaled, sparse, upper triangular, duplicate columns) x "
-                        "{row_major, col_major}, contiguous storage; entries from a fixed pseudo-random stream (2 draws per combination)";
-        e.scope_thorough = "quick scope with 16 draws per combination";
+                        "{row_major, col_major} x {contiguous, padded leading dimension}; entries from a fixed pseudo-random stream (1 draw per combination)";
+        e.scope_thorough = "quick scope with 8 draws per combination";
         e.gen = [cxv](const std::string &tier, const Emit &emit) {
             uint64_t st = 0x9E3779B97F4A7C15ULL + cxv;
             auto next = [&]() { st = st * 6364136223846793005ULL + 1442695040888963407ULL; return static_cast<uint32_t>(st >> 32); };
-            int draws = tier == "thorough" ? 16 : 2;
-            for (uint32_t m = 1; m <= 12; ++m) for (uint32_t n = 1; n <= 12; ++n) for (uint32_t fam = 0; fam < 8; ++fam) for (uint32_t cm = 0; cm < 2; ++cm) for (int d = 0; d < draws; ++d) {
-                std::vector<uint32_t> tape = {m - 1, n - 1, fam, cm, 0u};
+            int draws = tier == "thorough" ? 8 : 1;
+            for (uint32_t m = 1; m <= 12; ++m) for (uint32_t n = 1; n <= 12; ++n) for (uint32_t fam = 0; fam < 8; ++fam) for (uint32_t cm = 0; cm < 2; ++cm) for (uint32_t pad = 0; pad < 2; ++pad) for (int d = 0; d < draws; ++d) {
+                std::vector<uint32_t> tape = {m - 1, n - 1, fam, cm, pad ? 2u : 0u};
+                if (pad) tape.push_back(next() % 3);
                 for (int q = 0; q < 2 * 12 * 12 * 2 + 40; ++q) tape.push_back(next());
                 emit(tape);
             }
